@@ -231,10 +231,28 @@ def analyse(ci, m, src_id, depth=0, seen=None):
             return True
         return any(mentions_src(c) for c in e.get("inner", []))
 
+    if depth == 0:
+        analyse.conditional = set()       # members whose copy sits under a condition other than the self-assignment guard
+        analyse.cond_depth = 0
+
     def record(dst, srcs):
         per.setdefault(dst, set()).update(srcs)
         writes.add(dst)
         reads.update(srcs)
+        if analyse.cond_depth > 0:
+            analyse.conditional.add(dst)
+
+    def self_guard(c):
+        """`this != &src` / `this == &src` (and the same through casts / parentheses)"""
+        c = strip(c)
+        if c.get("kind") != "BinaryOperator" or c.get("opcode") not in ("!=", "==") or len(c.get("inner", [])) != 2:
+            return False
+        a, b = strip(c["inner"][0]), strip(c["inner"][1])
+
+        def addr_of_src(e):
+            return e.get("kind") == "UnaryOperator" and e.get("opcode") == "&" and e.get("inner") and \
+                strip(e["inner"][0]).get("kind") == "DeclRefExpr" and strip(e["inner"][0]).get("referencedDecl", {}).get("id") == src_id
+        return (a.get("kind") == "CXXThisExpr" and addr_of_src(b)) or (b.get("kind") == "CXXThisExpr" and addr_of_src(a))
 
     def this_accessor_target(e):
         """a destination given by a trivial accessor of *this (begin(), baseptr())"""
@@ -352,6 +370,17 @@ def analyse(ci, m, src_id, depth=0, seen=None):
                         src_members(a, srcs)
                     if srcs:
                         record(dst, srcs)
+        if k in ("IfStmt", "ConditionalOperator", "SwitchStmt") and n.get("inner"):
+            kids = n["inner"]
+            walk(kids[0])
+            guarded = not (k == "IfStmt" and self_guard(kids[0]))
+            if guarded:
+                analyse.cond_depth += 1
+            for c in kids[1:]:
+                walk(c)
+            if guarded:
+                analyse.cond_depth -= 1
+            return
         for c in n.get("inner", []):
             walk(c)
 
@@ -375,9 +404,12 @@ def extract():
         raise RuntimeError("clang failed on the special-member-function translation unit:\n" + p.stderr[-3000:])
     docs = gmpxx.parse_docs(p.stdout)
     classes = {}
+    outdefs = {}      # id of an in-class declaration -> its out-of-line definition (explicit specialisations such as Modular<Log16>)
 
     def walk(n):
         k = n.get("kind")
+        if k in ("CXXConstructorDecl", "CXXMethodDecl") and n.get("previousDecl") and body_of(n) is not None:
+            outdefs[n["previousDecl"]] = n
         if k == "ClassTemplateSpecializationDecl" and n.get("name") in TARGETS and \
                 any(c.get("kind") == "FieldDecl" for c in n.get("inner", [])):
             ci = ClassInfo(n)
@@ -390,6 +422,9 @@ def extract():
     table = []
     for inst in sorted(classes):
         ci = classes[inst]
+        for mid in list(ci.methods):
+            if body_of(ci.methods[mid]) is None and mid in outdefs:
+                ci.methods[mid] = outdefs[mid]
         ops = {}
         for mid, m in ci.methods.items():
             op = ci.classify(m)
@@ -415,6 +450,7 @@ def extract():
                 entry["per"] = {k: sorted(v) for k, v in per.items()}
                 entry["reads"] = sorted(reads)
                 entry["writes"] = sorted(writes)
+                entry["conditional"] = sorted(getattr(analyse, "conditional", ()))
             ops[op] = entry
         for op in OPS:
             if op not in ops:
